@@ -441,7 +441,7 @@ def _jobs_for(prop, tier):
         return [j for j in jobs_option_below(tier) if j[1][3] == 'combinations'] + jobs_combinations(tier) + jobs_axis0(tier, 'combinations')
     if prop == 'C03':
         return jobs_c03(tier) + jobs_option_reduce(tier) + jobs_axis(tier, ('reduce',)) + jobs_reduce_nonlocal(tier)
-    return {'C02': (lambda t: jobs_c02(t) + jobs_numpy_toregular(t)), 'C03': jobs_c03, 'C04': (lambda t: jobs_c04(t) + jobs_numpy_toregular(t)), 'C06': (lambda t: jobs_c06(t) + jobs_axis(t, ('sort', 'argsort')) + jobs_numpy_sort(t) + jobs_sort_nonlocal(t) + jobs_option_sort(t) + jobs_option_sort_above(t) + jobs_option_argsort(t) + jobs_string_argsort(t)), 'C08': (lambda t: jobs_c08(t) + jobs_numpy(t) + jobs_union(t) + jobs_reverse_merge(t) + jobs_record_merge(t) + jobs_list_merge(t) + [j for j in jobs_record_named(t) if j[0] is h_record_mergemany_named] + jobs_merge_union(t) + jobs_union_ops(t)), 'C17': (lambda t: jobs_c17(t) + jobs_record_keys(t)), 'C12': (lambda t: jobs_numpy(t) + jobs_numpy_astype(t)), 'C10': (lambda t: jobs_c10(t) + [j for j in jobs_record_named(t) if j[0] is h_record_field_key] + jobs_project(t) + [j for j in jobs_option_below(t) if j[1][3] in ('getitem_field', 'getitem_fields')] + jobs_record_setitem(t)), 'C05': jobs_c05, 'C09': jobs_c09}.get(prop, lambda t: [])(tier)
+    return {'C02': (lambda t: jobs_c02(t) + jobs_numpy_toregular(t)), 'C03': jobs_c03, 'C04': (lambda t: jobs_c04(t) + jobs_numpy_toregular(t)), 'C06': (lambda t: jobs_c06(t) + jobs_axis(t, ('sort', 'argsort')) + jobs_numpy_sort(t) + jobs_sort_nonlocal(t) + jobs_option_sort(t) + jobs_option_sort_above(t) + jobs_option_argsort(t) + jobs_string_argsort(t)), 'C08': (lambda t: jobs_c08(t) + jobs_numpy(t) + jobs_numpy_types(t) + jobs_union(t) + jobs_reverse_merge(t) + jobs_record_merge(t) + jobs_list_merge(t) + [j for j in jobs_record_named(t) if j[0] is h_record_mergemany_named] + jobs_merge_union(t) + jobs_union_ops(t)), 'C17': (lambda t: jobs_c17(t) + jobs_record_keys(t)), 'C12': (lambda t: jobs_numpy(t) + jobs_numpy_astype(t)), 'C10': (lambda t: jobs_c10(t) + [j for j in jobs_record_named(t) if j[0] is h_record_field_key] + jobs_project(t) + [j for j in jobs_option_below(t) if j[1][3] in ('getitem_field', 'getitem_fields')] + jobs_record_setitem(t)), 'C05': jobs_c05, 'C09': jobs_c09}.get(prop, lambda t: [])(tier)
 
 
 # ------------------------------------------------------------------------------------------------ C01: getitem_next of list nodes
@@ -6142,3 +6142,78 @@ def h_validity_string_content(kind):
 
 def jobs_validity_params(tier):
     return [(h_validity_string_content, (k,), 900) for k in ('string', 'bytestring')]
+
+
+# ------------------------------------------------------------------------------------------------ C08: concatenating integer arrays of different types
+INT_PROMOTION = {   # (a, b) -> result type of numpy.concatenate (integer results only)
+    ('uint32', 'int64'): 'int64', ('int64', 'uint32'): 'int64', ('uint32', 'int32'): 'int64', ('uint16', 'int32'): 'int32', ('uint8', 'int16'): 'int16',
+    ('int8', 'int64'): 'int64', ('uint8', 'uint32'): 'uint32', ('int32', 'int64'): 'int64', ('uint16', 'int64'): 'int64', ('uint8', 'int64'): 'int64',
+    ('int16', 'int32'): 'int32', ('uint16', 'uint64'): 'uint64', ('int32', 'uint16'): 'int32', ('int64', 'int8'): 'int64', ('uint32', 'uint64'): 'uint64',
+    ('bool', 'int64'): 'int64', ('bool', 'uint8'): 'uint8',
+}
+
+
+@guard
+def h_numpy_mergemany_types(dta, dtb, n=2):
+    """NumpyArray::mergemany of two one-dimensional integer arrays of different types: the result has the item size of NumPy's promoted type and
+    holds every value of the first array, then of the second, each converted exactly (an unsigned value stays non-negative, a signed one keeps
+    its sign)"""
+    res_t = INT_PROMOTION[(dta, dtb)]
+    nc = NodeCtx(['NA', 'IDX', 'CNT', 'UTL', 'KD', 'IDS', 'EA'], [], unwind=max(24, 8 * n + 20))
+    a, xa, _fa = build_numpy1d(nc, 'npa', n, dta)
+    b, xb, _fb = build_numpy1d(nc, 'npb', n, dtb)
+    nc.m.record('othersbuf', {0: (b, 8), 8: (NULL, 8)}, const=True)
+    others = nc.m.record('others', {0: (Ptr('othersbuf', 0), 8), 8: (Ptr('othersbuf', 16), 8), 16: (Ptr('othersbuf', 16), 8)}, const=True)
+    nc.m.record('ret', {})
+    out = nc.m.call('_ZNK7awkward10NumpyArray9mergemanyERKSt6vectorISt10shared_ptrINS_7ContentEESaIS4_EE', [Ptr('ret', 0), a, others])
+    obls = [('mergemany does not raise', out.raised)]
+    rbits = NP_DTYPES[res_t][1][1]
+
+    def conv(x, dt):
+        kind, sgn = NP_DTYPES[dt][1], NP_DTYPES[dt][4]
+        if dt == 'bool':
+            v = z3.If(x != 0, BV(1), BV(0))
+        elif kind[1] == 64:
+            v = x
+        else:
+            v = z3.SignExt(64 - kind[1], x) if sgn == 's' else z3.ZeroExt(64 - kind[1], x)
+        return z3.Extract(rbits - 1, 0, v)
+    want = [conv(x, dta) for x in xa] + [conv(x, dtb) for x in xb]
+    rcell = nc.m.cell('ret', 0)
+    for g, res in nodeh.decode_cases(nc, out.mem, rcell):
+        if res is None:
+            obls.append(('a result is returned', z3.And(g, z3.Not(out.raised))))
+            continue
+        ok = z3.And(g, z3.Not(out.raised))
+        if res['cls'] != 'numpy' or len(res['values']) != 2 * n:
+            obls.append(('the result is a flat array of all %d values' % (2 * n), ok)); continue
+        obls.append(('the item size is that of %s' % res_t, z3.And(ok, z3.BoolVal(res['itemsize'] != rbits // 8))))
+        for k, (v, w) in enumerate(zip(res['values'], want)):
+            vv = v if v.size() == rbits else z3.Extract(rbits - 1, 0, v)
+            obls.append(('value %d is converted exactly' % k, z3.And(ok, vv != w)))
+
+    TOK = {'int64': 'i64', 'int32': 'i32', 'int16': 'i16', 'int8': 'i8', 'uint8': 'u8', 'uint16': 'u16', 'uint32': 'u32', 'uint64': 'u64', 'bool': 'bool'}
+
+    def replay(model, ent):
+        import numpy as np
+
+        def vals(xs, dt):
+            out_ = []
+            for x in xs:
+                v = model.eval(x, model_completion=True)
+                out_.append((v.as_signed_long() if NP_DTYPES[dt][4] == 's' else v.as_long()) if dt != 'bool' else int(v.as_long() != 0))
+            return out_
+        va, vb = vals(xa, dta), vals(xb, dtb)
+        if any(v >= 2 ** 63 for v in va + vb):
+            return False, 'values from 2^63 on are not replayed (the JSON writer of the driver prints them as negative numbers)', {}
+        prog = '%s %s %s %s merge' % (TOK[dta], fullnative.ints(va), TOK[dtb], fullnative.ints(vb))
+        exp = np.concatenate([np.array(va, dtype=dta), np.array(vb, dtype=dtb)]).tolist()
+        exp = [int(x) for x in exp]
+        return akrun_check(prog, exp, 'concatenation of %s %s and %s %s' % (dta, va, dtb, vb))
+    return mdischarge(nc.m, 'NumpyArray::mergemany %s + %s' % (dta, dtb), obls, [], replay=replay, prefer=[z3.ULT(x, 2 ** 63) if x.size() == 64 else z3.BoolVal(True) for x in xa + xb],
+                      extra=dict(bounds='two one-dimensional arrays of %d values each, all values symbolic' % n))
+
+
+def jobs_numpy_types(tier):
+    pairs = list(INT_PROMOTION) if tier != 'quick' else [('uint32', 'int64'), ('int64', 'uint32'), ('uint16', 'int32'), ('uint8', 'int16'), ('int8', 'int64'), ('uint8', 'uint32'), ('bool', 'int64'), ('uint32', 'uint64')]
+    return [(h_numpy_mergemany_types, p, 1800) for p in pairs]
